@@ -15,6 +15,24 @@ FILE_MUTATORS = ('File::create', 'OpenOptions::truncate', 'OpenOptions::create',
                  'remove_file', 'fs::rename', 'unlink', 'fs::write', 'truncate', 'fs::remove_dir', 'posix_fallocate', 'fallocate')
 
 
+def lossless_origin(v):
+    """look through value-preserving wrappers (casts, Ok/Some payloads, try_into / try_from / map_err /
+    ok_or.. / into / from / unwrap / expect) to the value a term was converted from"""
+    passthrough = ('try_into', 'try_from', 'map_err', 'ok_or', 'ok_or_else', 'into', 'from', 'unwrap', 'expect', 'ok')
+    while True:
+        v = arith.strip_casts(v)
+        if v[0] == 't' and v[1] == 'field' and v[2][0][0] == 't' and v[2][0][1] == 'as' and v[2][0][2][1] in ('Ok', 'Some'):
+            v = v[2][0][2][0]
+            continue
+        if v[0] == 'agg' and v[2] in ('Ok', 'Some') and v[3]:
+            v = v[3][0]
+            continue
+        if v[0] == 't' and v[1] == 'call' and v[2][0].split('::')[-1] in passthrough and len(v[2]) >= 3:
+            v = v[2][2]
+            continue
+        return v
+
+
 def helpers(fb):
     out = {}
     for b in fb.bodies(common.SHM):
@@ -47,11 +65,7 @@ def wipe_sequence(fb, chk):
         nm = ef['callee'].split('::')[-1]
         if nm in ('write_u8', 'write_u16', 'write_u32', 'write_u64', 'write_i32', 'write_i64'):
             v = ef['args'][1]
-            core_v = arith.strip_casts(v)
-            if core_v[0] == 't' and core_v[1] == 'field' and core_v[2][0][0] == 't' and core_v[2][0][1] == 'as':
-                inner = core_v[2][0][2][0]
-                if inner[0] == 't' and inner[1] == 'call' and inner[2][0].endswith('try_into') and len(inner[2]) == 3:
-                    core_v = arith.strip_casts(inner[2][2])
+            core_v = lossless_origin(v)
             val = v[1] if psi.is_int_const(v) else ('segsize' if core_v == ('sym', 'segsize') else fmt(v)[:80])
             endian = [crate_ty for crate_ty in ((ef['fn'] or {}).get('targs') or [])]
             seq.append((int(nm.split('_')[1][1:]) // 8, val))
